@@ -179,7 +179,20 @@ def gen_book(rng, tier, far=False):
     for i in range(nchart):
         pos = rng.randrange(1, len(order) + 1)      # never first: the chart needs a worksheet created before it
         order.insert(pos, wbspec.sheet(f'Chart{i}', chart=True))
-    return {'sheets': order}, titles, plant, probes
+    spec = {'sheets': order}
+    if not far and rng.random() < 0.35:
+        # the size record of each worksheet part as other producers leave it (stale, minimal, generous, absent), or cells right of /
+        # below the data that were looked at but never given a value: coordinates, values and sizes are those of the stored cells
+        if rng.random() < 0.7:
+            spec['dimension'] = rng.choice(['understate', 'box', 'overstate', 'drop'])
+        else:
+            for sh in order:
+                if not sh.get('chart') and sh['cells']:
+                    # in a row that holds data (a touched cell in an empty row leaves an empty row element behind - a stored row)
+                    rows_ = sorted({wbspec.rc(a)[0] for a in sh['cells']})
+                    wmax = max(wbspec.rc(a)[1] for a in sh['cells'])
+                    sh['touched'] = [wbspec.a1(rng.choice(rows_), wmax + rng.randrange(1, 6)) for _ in range(2)]
+    return spec, titles, plant, probes
 
 
 _PROBE = re.compile(r"^=(?:(?:'((?:[^']|'')*)'|([A-Za-z0-9_]+))!)?([A-Z]+)(\d+)$")
@@ -224,6 +237,8 @@ def check_book(ctx, spec, titles, plant, probes, name, far=False):
     else:
         book = pipeline.Book(spec, ctx.workdir, name=name)
     r.count('books:' + book.mode)
+    if spec.get('dimension') or any(sh.get('touched') for sh in spec['sheets']):
+        r.count('books_with_forged_size_record:' + str(spec.get('dimension') or 'touched'))
     if not far and book.cls is None:
         report(r, ID, None, case0, book.whole.brief(), 'a loadable translation of a readable workbook', monitor='translate')
         return
